@@ -12,6 +12,19 @@ CLAIMED = {
          "Exhaustive model checking of the registry design for 3x3 (quick) / 4x4 (thorough) domains, and conformance of the real "
          "class to the model on every transition of the model plus thousands of longer random executions.", "3 C27", ""),
 }
+SCHED = ("TLA+ spec specs/sched/Doist.tla (marker-deque scheduler with nested DoDoers as an explicit call stack): TLC exhaustive "
+         "MC of the property monitors; maximal behaviours (exhaustive + tlc -simulate) replayed on the real Doist/DoDoer/doer "
+         "flavours with the full event log compared (spec->code)")
+for pid, (extra, text) in {
+ "C01": ("invariants LifeOK/AllOutAtEnd", "every exit path (completion, limit, raise in enter/recur, KeyboardInterrupt, remove, failing enter inside extend) for all forests/scripts within the bounds; per-doer life-cycle of the real run must equal the model's and be well formed"),
+ "C02": ("invariants SweepsOrdered(ModuloExtend)/AllOutAtEnd", "forced-close order per scheduler, children before their DoDoer, nothing after do() returns; one known finding (mid-cycle extend) is modelled as coded and matched by signature"),
+ "C03": ("refinement PROPERTY DoistRefine!FlatSpec: the deque scheduler refines the abstract cycle model FlatSched.tla", "the real (doer,tyme) recur sequence equals the model's for every behaviour, with four exact time scales, start tymes and tocks"),
+ "C04": ("every regrouping refines the same FlatSched instance (TLC refinement check)", "real nested and real flattened forests are run from the same scripts and compared with the model and each other"),
+ "C05": ("invariants EndExact/DoneExact", "doist.done, final tyme, how the run ended and every doer.done compared for all limits/completion points in the bounds"),
+ "C06": ("invariants OpsExact/LifeOK", "membership after every extend/remove call, the events inside the call, first recur of new doers, no recur of removed doers"),
+ "C30": ("same model as C03/C05", "do() and asyncio.run(ado()) on fresh objects must both equal the model's full event log, flags and tyme"),
+}.items():
+    CLAIMED[pid] = (SCHED + "; " + extra, "Exhaustive model checking of the scheduler design within the stated bounds plus conformance of the real code on every enumerated and on thousands of simulated behaviours: " + text, "3 " + pid, "")
 NA = {
  "C28": "pure value-fidelity of json/cbor2/msgpack + dataclass reflection: no state/transition structure for a TLA+ model to decide (DESIGN.md section 4)",
 }
